@@ -20,6 +20,13 @@ func (x *Exec) evalInstr(st *State, fr *Frame, b *ssa.BasicBlock, idx int, v ssa
 		o := x.e.newObj(st, zero)
 		if a, ok := elem.Underlying().(*types.Array); ok {
 			x.e.objElem[o] = a.Elem()
+			switch in.Comment {
+			case "slicelit", "makeslice", "varargs", "complit":
+			default:
+				if isByte(a.Elem()) {
+					x.e.localArr[o] = true // a local [N]byte variable: slices of it are mutable views
+				}
+			}
 		}
 		fr.env[in] = &PtrV{Nil: TFalse, Obj: o, Elem: elem}
 	case *ssa.BinOp:
@@ -595,6 +602,18 @@ func (x *Exec) sliceOp(st *State, fr *Frame, in *ssa.Slice) Val {
 			}
 			x.fail("slice of pointer to %T", arr)
 		}
+		if isByte(av.Elem) && x.e.localArr[bv.Obj] && len(bv.Path) == 0 {
+			// mutable view of a local byte array
+			l := IntLit(0)
+			if lo != nil {
+				l = *lo
+			}
+			h := IntLit(int64(len(av.Elems)))
+			if hi != nil {
+				h = *hi
+			}
+			return &SliceV{Back: bv.Obj, Off: l, Len: Sub(h, l), Elem: av.Elem}
+		}
 		if isByte(av.Elem) {
 			// byte array -> String term
 			r := byteArrString(av)
@@ -930,6 +949,15 @@ func (x *Exec) coerceBufs(st *State, args []Val) []Val {
 				} else {
 					out[i] = app(SString, "str.substr", cur, sl.Off, sl.Len)
 				}
+			} else if av, isArr := st.Heap[sl.Back].(*ArrV); isArr {
+				if out == nil {
+					out = append([]Val(nil), args...)
+				}
+				s := byteArrString(av)
+				if sl.Off.S != "0" || sl.Len.S != fmt.Sprint(len(av.Elems)) {
+					s = app(SString, "str.substr", s, sl.Off, sl.Len)
+				}
+				out[i] = s
 			}
 		}
 	}
@@ -1176,8 +1204,46 @@ func (x *Exec) builtin(st *State, fr *Frame, ci *callInfo, name string, args []V
 		// copy into a mutable byte buffer of the same length as the source
 		dst, ok := args[0].(*SliceV)
 		src, ok2 := args[1].(T)
+		if sb, isBuf := args[1].(*SliceV); isBuf && isByte(sb.Elem) {
+			if c := x.coerceBufs(st, []Val{sb}); len(c) == 1 {
+				if t, isT := c[0].(T); isT {
+					src, ok2 = t, true
+				}
+			}
+		}
 		if ok && ok2 && isByte(dst.Elem) && dst.Off.S == "0" {
+			if av, isArr := st.Heap[dst.Back].(*ArrV); isArr {
+				// copy into a local byte array: element i becomes src[i] for i < len(src)
+				n := &ArrV{Elem: av.Elem}
+				sl := StrLen(src)
+				for i, old := range av.Elems {
+					var el T
+					if ln, lit := isLit(sl); lit && src.Segs != nil && len(src.Segs) == 1 && src.Segs[0].Kind == "const" {
+						if int64(i) < ln {
+							el = IntLit(int64(src.Segs[0].Lit[i]))
+						} else {
+							el = old.(T)
+						}
+					} else {
+						el = Ite(Lt(IntLit(int64(i)), sl), app(SInt, "str.to_code", app(SString, "str.at", src, IntLit(int64(i)))), old.(T))
+					}
+					n.Elems = append(n.Elems, el)
+				}
+				st.Heap[dst.Back] = n
+				if st.Written != nil {
+					st.Written[dst.Back] = true
+				}
+				return app(SInt, "min_", dst.Len, sl)
+			}
 			if cur, isT := st.Heap[dst.Back].(T); isT && cur.So == SString {
+				if dst.Len.S == StrLen(src).S {
+					// destination has exactly the source's length: a full copy
+					st.Heap[dst.Back] = T{S: src.S, So: SString}
+					if st.Written != nil {
+						st.Written[dst.Back] = true
+					}
+					return dst.Len
+				}
 				n := app(SInt, "min_", dst.Len, StrLen(src))
 				st.Heap[dst.Back] = app(SString, "str.++", app(SString, "str.substr", src, IntLit(0), n), app(SString, "str.substr", cur, n, Sub(dst.Len, n)))
 				if st.Written != nil {
